@@ -1,6 +1,7 @@
 import AkVerif.Gen.C17
 import AkVerif.Lemmas.HttpConn
 import AkVerif.Lemmas.HttpConnHeap
+import AkVerif.Lemmas.HttpConnFrame
 import AkVerif.Lemmas.HttpConnB64
 /-!
 # C17 — layered HTTP connections compose adapters without side effects
